@@ -52,6 +52,9 @@ def corpus():
     out = c20.time_cases() + _cli_time_lines(vlib.Rng(1717), 40)
     for t in _interesting_times():
         out += ["UNIX %d" % t, "TSTR %d" % t, "TSFMT %d %d" % (t, t % 7)]
+    # several threads formatting at once (times inside one second, across seconds, across days, beyond year 9999): same text as one thread alone
+    out += ["TSTRESS 668149567005 1 16", "TSTRESS 668149567005 333 48", "TSTRESS 0 86399999 32", "TSTRESS 252455615999000 250 16",
+            "TSTRESS 668149567000 1000 2", "TSTRESS 668149567005 0 8"]
     out += ["TSFMT 0 18446744073709551615", "NOW %d" % OFFSET_MS, "NOW %d" % (OFFSET_MS + 1), "NOW %d" % (U64 - 1),
             "NOW 1790000000000"]
     # ticking clock: the readings straddle a full-second / minute / day boundary between two clock reads
@@ -126,6 +129,9 @@ def oracle(line, out, mode):
         t, q = int(tok[1]), int(tok[2])
         if t <= LAST_9999 and not (out.startswith("OK x") and vlib.canon_rfc3339_hex(out[4:]) == "@%d %d" % (t + OFFSET_MS, q)):
             return "timestamp display does not denote (that instant, that sequence number)"
+    elif tok[0] == "TSTRESS":
+        if out != "OK %s SAME" % tok[3]:
+            return "formatting by several threads at once differs from formatting by one thread alone: %s" % out[:40]
     elif tok[0] == "TICK":
         # the clock moved from FIRST to LAST (the readings actually taken) while dtn_time_now() ran: its answer must lie in between
         o = out.split(" ")
